@@ -31,9 +31,7 @@ func genC14(rt *rapid.T, c *Ctx) C14Case {
 	if rapid.IntRange(0, 99).Draw(rt, "planted") < 35 {
 		k.Plant = rapid.SampledFrom([]string{"syntax", "type-error", "mixed-packages", "dup-set", "missing-ctor", "type-error-nonwire", "syntax-nonwire", "mixed-packages-same-name"}).Draw(rt, "plant")
 	}
-	if k.Plant != "missing-ctor" {
-		delete(allow, "bind-foreign-ctor")
-	}
+
 	o := spec.WOpts{MaxUnits: 8, MaxFiles: 2, Allow: allow, OnExclude: func(f string) { c.Rep.Exclude(f) }, ExtNames: rapid.Bool().Draw(rt, "extnames")}
 	k.W = spec.GenWire(rt, o)
 	if rapid.IntRange(0, 9).Draw(rt, "customout") < 3 {
@@ -55,7 +53,7 @@ func checkC14(c *Ctx, k C14Case) *Verdict {
 		v.Discard = "empty-case"
 		return v
 	}
-	plantMissingCtorFile := k.Plant == "missing-ctor" && !w.HasFeature("bind-foreign-ctor")
+	plantMissingCtorFile := k.Plant == "missing-ctor"
 	p, d, det := newWirePair(c, w)
 	defer p.Close()
 	if d != "" {
@@ -114,7 +112,7 @@ func checkC14(c *Ctx, k C14Case) *Verdict {
 			if k.Prior {
 				name = "wire_aa_bad.go" // sorts before wire.go
 			}
-			_ = os.WriteFile(filepath.Join(p.B.AppDir, name), []byte("//go:build wireinject\n\npackage "+mat.UserPkg+"\n\nimport \"github.com/google/wire\"\n\ntype BadIface interface{ BadM() }\n\ntype BadImpl struct{}\n\nfunc (*BadImpl) BadM() {}\n\nfunc ProvideBadImpl() *BadImpl { return &BadImpl{} }\n\nvar BadSet = wire.NewSet(ProvideBadImpl, wire.Bind(new(BadIface), new(*BadImpl)))\n"), 0o644)
+			_ = os.WriteFile(filepath.Join(p.B.AppDir, name), []byte("//go:build wireinject\n\npackage "+mat.UserPkg+"\n\nimport \"github.com/google/wire\"\n\ntype BadIface interface{ BadM() }\n\ntype BadImpl struct{}\n\nfunc (*BadImpl) BadM() {}\n\nfunc ProvideBadImpl() *BadImpl { return &BadImpl{} }\n\n// the binding has no provider in its list and there is no NewBadImpl either\nvar BadSet = wire.NewSet(wire.Bind(new(BadIface), new(*BadImpl)))\n"), 0o644)
 		}
 	case "mixed-packages-same-name":
 		// a second package with wire configuration that has the SAME package name (two commands, two "app")
@@ -174,10 +172,6 @@ func checkC14(c *Ctx, k C14Case) *Verdict {
 		return v
 	}
 	if p.Mig.Exit != 0 {
-		if w.HasFeature("bind-foreign-ctor") {
-			v.Discard = "missing-constructor-input"
-			return v
-		}
 		return fail("rejected-valid", errLine(p.Mig.Stderr), "migrate exits %d on a configuration wire accepts", p.Mig.Exit)
 	}
 	src, err := os.ReadFile(outPath)
